@@ -31,11 +31,13 @@ EXTENDS Integers, Sequences, FiniteSets, TLC
 CONSTANTS Mode,       \* "c11": scripted driver (reconcile, sync, check, retry ...), faults in reconciles
                       \* "c17": free environment (concurrent reconciles, handlers, syncs, env events)
           Configs,    \* set of configurations [kinds, grps] explored
-          MaxFail, MaxCrash,   \* fault budgets
+          MaxFail, MaxCrash,   \* fault budgets per type
+          MaxFaults,           \* fault budget in total (1: single faults, 2: pairs ...)
           MaxRec,     \* c11: reconciles per behaviour; c17: reconciles per pod
           MaxEnv,     \* c17: environment events (handlers, PodRunning, Annotate)
           MaxSync,    \* c17: explicit syncs
-          MaxHist     \* c17: bound on the exported history (0 = do not record)
+          MaxConc,    \* c17: actors in flight at the same time
+          MaxHist     \* bound on the exported history (0 = do not record)
 
 NP == 3
 NG == 2
@@ -475,8 +477,8 @@ Rec(lab) == IF MaxHist > 0 /\ Len(hist) < MaxHist /\ (Mode # "c11" \/ (lab.n = "
 StepActor(a) ==
   /\ ~Idle(a)
   /\ \E r \in Succ(a) :
-       /\ r.lab.res = "fail" => ctl.nfail < MaxFail
-       /\ r.lab.res = "crash" => ctl.ncrash < MaxCrash
+       /\ r.lab.res = "fail" => ctl.nfail < MaxFail /\ ctl.nfail + ctl.ncrash < MaxFaults
+       /\ r.lab.res = "crash" => ctl.ncrash < MaxCrash /\ ctl.nfail + ctl.ncrash < MaxFaults
        /\ S' = r.S
        /\ LET crash == r.lab.res = "crash"
               L2 == IF crash THEN [b \in Actors |-> L0] ELSE [L EXCEPT ![a] = r.L]
@@ -494,13 +496,13 @@ StepActor(a) ==
 StartRec(p) ==
   /\ Idle(p) /\ Bindable(p)
   /\ L' = [L EXCEPT ![p] = StartRecL(S, p)]
-  /\ hist' = Rec([n |-> "start", a |-> p, t |-> "rec", p |-> p, e |-> ""])
+  /\ hist' = Rec([n |-> "start", a |-> p, t |-> "rec", p |-> p, e |-> "", end |-> 0])
   /\ UNCHANGED <<cfg, S, mutex>>
 
 StartSync(t) ==
   /\ Idle(ASync)
   /\ L' = [L EXCEPT ![ASync] = StartSyncL(t)]
-  /\ hist' = Rec([n |-> "start", a |-> ASync, t |-> t, p |-> 0, e |-> ""])
+  /\ hist' = Rec([n |-> "start", a |-> ASync, t |-> t, p |-> 0, e |-> "", end |-> 0])
   /\ UNCHANGED <<cfg, S, mutex>>
 
 StartHdl(e, p) ==
@@ -512,7 +514,7 @@ StartHdl(e, p) ==
        /\ LET c1 == ObserveStart(ctl, "hdl", p, e, EvGroups(S, e, p))
               c2 == [c1 EXCEPT !.nenv = c1.nenv + 1]
           IN ctl' = IF c.L.t = "idle" THEN ObserveEnd(c2, [L0 EXCEPT !.t = "hdl"], \A b \in Actors \ {AHdl} : Idle(b)) ELSE c2
-  /\ hist' = Rec([n |-> "start", a |-> AHdl, t |-> "hdl", p |-> p, e |-> e])
+       /\ hist' = Rec([n |-> "start", a |-> AHdl, t |-> "hdl", p |-> p, e |-> e, end |-> IF c.L.t = "idle" THEN 1 ELSE 0])
   /\ UNCHANGED <<cfg, mutex>>
 
 EnvPodRunning(p) ==
@@ -545,19 +547,50 @@ C11Next ==
                            !.final = IF ctl.nrec >= MaxRec \/ (Settled /\ ctl.probe = 1) THEN 1 ELSE 0]
      /\ UNCHANGED <<cfg, S, L, mutex, hist>>
 
-\* ---- c17: free environment
+\* ---- c17: free environment: concurrent reconciles, handlers, syncs, environment events.
+\* Reduction: steps that touch only objects private to the actor's own pod (its BindRequest, its ConfigMaps,
+\* the node, the claim, its PodBound condition, the scaling-pod list) commute with every step of every other
+\* actor and with the environment; whenever an actor waits at such a step it is scheduled first (lowest id),
+\* alone. Faults in this mode: Fail at the label patch and at the binding sub-resource ("bind failure"),
+\* Crash after every step that is visible to other actors (c11 mode enumerates every call of a reconcile).
+PrivatePcs == {"GetBR", "GetNode", "RV_scale", "DRA_get", "DRA_upd", "CM_getcap", "CM_createcap", "CM_patchcap", "CM_getevar",
+               "CM_createevar", "CM_patchevar", "NVD_get", "NVD_patch", "POR_get", "POR_patch", "RB_delcap", "RB_delevar",
+               "ST_patch", "PC_patch"}
+FailPcs17 == {"RV_label", "BIND"}
+PrivActors == {a \in Actors : ~Idle(a) /\ L[a].pc \in PrivatePcs}
+InFlight == Cardinality({a \in Actors : ~Idle(a)})
+Step17(a) ==
+  /\ ~Idle(a)
+  /\ \E r \in Succ(a) :
+       /\ r.lab.res = "fail" => ctl.nfail < MaxFail /\ ctl.nfail + ctl.ncrash < MaxFaults /\ L[a].pc \in FailPcs17
+       /\ r.lab.res = "crash" => ctl.ncrash < MaxCrash /\ ctl.nfail + ctl.ncrash < MaxFaults /\ L[a].pc \notin PrivatePcs
+       /\ S' = r.S
+       /\ LET crash == r.lab.res = "crash"
+              L2 == IF crash THEN [b \in Actors |-> L0] ELSE [L EXCEPT ![a] = r.L]
+              c1 == ObserveCall(ctl, L[a], r.lab)
+              c2 == IF ~crash /\ r.L.t = "idle" THEN ObserveEnd(c1, L[a], \A b \in Actors \ {a} : L2[b].t = "idle") ELSE c1
+          IN /\ L' = L2
+             /\ mutex' = IF crash THEN M0 ELSE r.M
+             /\ ctl' = [c2 EXCEPT !.nfail = IF r.lab.res = "fail" THEN c2.nfail + 1 ELSE c2.nfail,
+                                  !.ncrash = IF crash THEN c2.ncrash + 1 ELSE c2.ncrash]
+       /\ hist' = Rec(r.lab @@ [end |-> IF r.lab.res = "crash" THEN 2 ELSE IF r.L.t = "idle" THEN 1 ELSE 0])
+  /\ UNCHANGED cfg
 C17Next ==
-  \/ \E a \in Actors : StepActor(a)
-  \/ \E p \in 1..2 :
-       /\ ctl.recs[p] < MaxRec /\ S.br[p].ex = 1 /\ S.br[p].ph # "Succeeded" /\ Exists(S, p)
-       /\ StartRec(p)
-       /\ ctl' = [ObserveStart(ctl, "rec", p, "", {}) EXCEPT !.recs[p] = ctl.recs[p] + 1]
-  \/ /\ ctl.nsync < MaxSync
-     /\ \E t \in {"sync", "syncnode"} : StartSync(t)
-     /\ ctl' = [ObserveStart(ctl, "sync", 0, "", {}) EXCEPT !.nsync = ctl.nsync + 1]
+  IF PrivActors # {} THEN Step17(CHOOSE a \in PrivActors : \A b \in PrivActors : a <= b)
+  ELSE
+  \/ \E a \in Actors : Step17(a)
+  \/ /\ InFlight < MaxConc
+     /\ \/ \E p \in 1..2 :
+             /\ ctl.recs[p] < MaxRec /\ S.br[p].ex = 1 /\ S.br[p].ph # "Succeeded" /\ Exists(S, p)
+             /\ StartRec(p)
+             /\ ctl' = [ObserveStart(ctl, "rec", p, "", {}) EXCEPT !.recs[p] = ctl.recs[p] + 1]
+        \/ /\ ctl.nsync < MaxSync
+           /\ \E t \in {"sync", "syncnode"} : StartSync(t)
+           /\ ctl' = [ObserveStart(ctl, "sync", 0, "", {}) EXCEPT !.nsync = ctl.nsync + 1]
+        \/ /\ ctl.nenv < MaxEnv
+           /\ \E e \in {"PodDeleted", "PodCompleted", "BRDeleted"}, p \in Pods : StartHdl(e, p)
   \/ /\ ctl.nenv < MaxEnv
-     /\ \/ \E e \in {"PodDeleted", "PodCompleted", "BRDeleted"}, p \in Pods : StartHdl(e, p)
-        \/ \E p \in Pods : EnvPodRunning(p)
+     /\ \/ \E p \in Pods : EnvPodRunning(p)
         \/ \E g \in Groups : EnvAnnotate(g)
 
 Next == IF Mode = "c11" THEN C11Next ELSE C17Next
@@ -567,7 +600,6 @@ Spec == Init /\ [][Next]_vars /\ WF_vars(Progress)
 
 \* c11: whatever faults happened, the scripted retries end with the pod bound and everything in place
 C11_Recoverable == <>[](ctl.phase = "done" /\ ctl.final = 1)
-C11_RecoveredModel == (Mode = "c11" /\ ctl.phase = "done") => ctl.final = 1
 
 (***************************************************************************)
 (* Export of fault schedules (c11) and histories (c17)                      *)
